@@ -1,12 +1,153 @@
 (* C13 — keys, pastes and mouse events forwarded into the embedded terminal arrive intact.
-   Statements only; proofs live in proofs/TermKeysProofs.v. *)
+   Statements only; proofs live in proofs/TermKeysProofs.v.
+
+   Vocabulary (model/TermKeys.v, model/TermMouse.v):
+     term_update u md e   the BYTES widgets/term's Model.Update writes to the child for the event e when the
+                          child has selected the modes md (encodeXterm over the key maps translated from
+                          widgets/term/key.go on every run; handleMouse; the paste brackets);
+     host_read u seg bs   what a Vaxis makes of those bytes followed by silence: the ANSI parser of C02
+                          (parse_segments, on bytes), handleSequence's dispatch, decodeKey of C09 and
+                          parseMouseEvent;
+     forward u seg md e   = host_read u seg (term_update u md e);
+     xterm_expressible    the chords the xterm legacy encoding can express, fixed in model/TermKeys.v before any
+                          proof: unmodified printable keys with their text; Shift + lower-case letter with the
+                          upper-case text (and Shift + a non-letter that Shift leaves alone); Alt + a character c
+                          for which ESC c is one escape sequence; Ctrl + letter other than h, i, m (whose C0
+                          codes are Backspace, Tab, Enter); every key of xtermKeymap with every combination of
+                          Shift/Alt/Ctrl; Tab, Enter, Esc, Backspace unmodified and Shift+Tab.  Caps Lock and
+                          Num Lock may be set in any of them; Super/Hyper/Meta may not.
+   [u : uni] is package unicode, [seg] is uniseg's grapheme clustering: oracles.  The oracle hypotheses are
+   [oracle_ok u] (DEL is not upper-case, no upper-case rune lower-cases to DEL, a-z are lower-case) and
+   [seg [r] = [[r]]] (one code point is one cluster). *)
 From Vx Require Import base.Prelude gen.GenKeys gen.GenTermKeys model.Keys model.ParserTypes model.Parser
   model.TermMouse model.TermKeys proofs.TermKeysProofs.
 Local Open Scope Z_scope.
 
+(* ---------- keys ---------- *)
+
+(* key_forward_roundtrip.  For every xterm-expressible chord and EVERY mode set of the child (DECCKM, DECKPAM
+   and all others): exactly one key event arrives; it Matches the chord's key code and modifiers; its
+   modifiers other than Shift are the chord's; it is a press.  The special keys x 32 modifier masks
+   (8 Shift/Alt/Ctrl sets x lock bits) x 4 mode sets, the Alt characters, the Ctrl letters and Tab/Enter/Esc
+   are finite domains closed by vm_compute; printable keys are proved for every rune. *)
+Theorem C13_key_forward_roundtrip : forall (u : uni) (seg : list Z -> list (list Z)) (k : key) (md : tmodes),
+  (forall r, seg [r] = [[r]]) -> oracle_ok u ->
+  xterm_expressible u k = true ->
+  roundtrip_ok u k (forward u seg md (TKey k)) = true.
+Proof. exact key_forward_roundtrip. Qed.
+Print Assumptions C13_key_forward_roundtrip.
+
+(* chords that produce text (unmodified, Shift) arrive with exactly that text *)
+Theorem C13_key_forward_text : forall (u : uni) (seg : list Z -> list (list Z)) (k : key) (md : tmodes),
+  (forall r, seg [r] = [[r]]) -> oracle_ok u ->
+  mods_in_scope k = true -> chord_plain k || chord_shift u k = true ->
+  text_ok k (forward u seg md (TKey k)) = true.
+Proof. exact key_forward_text. Qed.
+Print Assumptions C13_key_forward_text.
+
+(* special keys, with no hypothesis on the oracles, and exactly: the decoded event has the chord's key code and
+   precisely its Shift/Alt/Ctrl set.  Bound: the 22 keys of xtermKeymap, modifier masks 0..255 without
+   Super/Hyper/Meta, the 4 DECCKM/DECKPAM settings. *)
 Theorem C13_special_key_roundtrip : forall (u : uni) (seg : list Z -> list (list Z)) (k : key) (md : tmodes),
   existsb (Z.eqb (k_code k)) special_keys = true -> mods_in_scope k = true ->
   exists k', forward u seg md (TKey k) = [HKey k'] /\ roundtrip_ok u k [HKey k'] = true /\
              k_code k' = k_code k /\ k_mods k' = chord_mods k.
-Proof. intros u seg k md Hc Hm. exact (special_roundtrip u seg k _ _ md Hc Hm eq_refl eq_refl). Qed.
+Proof. exact special_roundtrip. Qed.
 Print Assumptions C13_special_key_roundtrip.
+
+(* cursor_mode_selects.  DECCKM set => the SS3 form, reset => the CSI form, for the unmodified cursor keys
+   (finals as in VT100/xterm, [cursor_finals] is written by hand) ... *)
+Theorem C13_cursor_mode_selects : forall (u : uni) (k : key) (deckpam : bool) (x : Z),
+  xterm_mods (k_mods k) = 0 -> lookup1 cursor_finals (k_code k) = Some x ->
+  encode_xterm u k deckpam true = [27; 79; x] /\ encode_xterm u k deckpam false = [27; 91; x].
+Proof. exact cursor_mode_selects. Qed.
+Print Assumptions C13_cursor_mode_selects.
+
+(* ... and it changes nothing else *)
+Theorem C13_cursor_mode_only_cursor_keys : forall (u : uni) (k : key) (deckpam : bool),
+  xterm_mods (k_mods k) <> 0 \/ lookup1 cursor_finals (k_code k) = None ->
+  encode_xterm u k deckpam true = encode_xterm u k deckpam false.
+Proof. exact cursor_mode_only_cursor. Qed.
+Print Assumptions C13_cursor_mode_only_cursor_keys.
+
+(* The keypad mode (DECKPAM / DECKPNM) selects nothing: applicationKeymap and numericKeymap are the same
+   table, and keypad keys (KeyKeyPad0, ...) are in neither.  The clause "the child's keypad mode selects the
+   encoding it asked for" of the property is therefore NOT proved; what is proved is that the mode is
+   without effect (proposed finding keypad-mode-ignored). *)
+Theorem C13_keypad_mode_selects_nothing : forall (u : uni) (k : key) (decckm : bool),
+  encode_xterm u k true decckm = encode_xterm u k false decckm.
+Proof. exact keypad_mode_selects_nothing. Qed.
+Print Assumptions C13_keypad_mode_selects_nothing.
+
+(* ---------- mouse ---------- *)
+
+(* mouse_forward_roundtrip.  Under SGR mode (1006) and a tracking mode that enables the event (1000: presses and
+   releases; 1002: those and drags; 1003: those and all motion), for ALL buttons the SGR report can carry
+   (button_ok: the bits of the decoder's button mask, which covers every MouseButton constant), all columns and
+   rows >= 0 (below MaxInt64) and press / release / motion: exactly one mouse event arrives, with the same
+   button, row, column and event type.  Its modifiers are 0 (see the next theorem). *)
+Theorem C13_mouse_forward_roundtrip : forall (u : uni) (seg : list Z -> list (list Z)) (md : tmodes) (m : mouse),
+  m_sgr md = true -> mouse_enabled md m = true -> button_ok (ms_button m) = true ->
+  in_i63 (ms_col m) = true -> in_i63 (ms_row m) = true ->
+  forward u seg md (TMouse m) = [HMouse (mkMouse (ms_button m) (ms_row m) (ms_col m) (ms_type m) 0)].
+Proof. exact mouse_forward_roundtrip. Qed.
+Print Assumptions C13_mouse_forward_roundtrip.
+
+(* The modifiers held with a mouse event are never forwarded (outside the text of the property, which asks
+   for button, position and type; proposed finding mouse-modifiers-dropped). *)
+Theorem C13_mouse_modifiers_dropped : forall (md : tmodes) (m : mouse),
+  handle_mouse md m = handle_mouse md (mkMouse (ms_button m) (ms_row m) (ms_col m) (ms_type m) 0).
+Proof. exact mouse_modifiers_dropped. Qed.
+Print Assumptions C13_mouse_modifiers_dropped.
+
+(* nothing_unless_enabled.  A press, release or motion event the child has not enabled writes nothing:
+   no tracking mode => nothing (whatever 1006 says); motion without 1003, drag without 1002/1003 => nothing.
+   The one exception is alternate scroll, specified exactly: in the alternate screen with mode 1007 and no
+   tracking mode, a wheel event becomes three cursor-up / cursor-down keys. *)
+Theorem C13_nothing_unless_enabled : forall (md : tmodes) (m : mouse),
+  is_click m || (ms_type m =? EventMotion) = true -> mouse_enabled md m = false ->
+  handle_mouse md m =
+    if altscroll_applies md m
+    then (if ms_button m =? MouseWheelUp then ss3_up ++ ss3_up ++ ss3_up else ss3_down ++ ss3_down ++ ss3_down)
+    else [].
+Proof. exact nothing_unless_enabled. Qed.
+Print Assumptions C13_nothing_unless_enabled.
+
+(* ---------- paste ---------- *)
+
+(* with mode 2004 the brackets are written and arrive as paste-start / paste-end; without it nothing is written *)
+Theorem C13_paste_brackets : forall (u : uni) (seg : list Z -> list (list Z)) (md : tmodes),
+  (m_paste md = true -> forward u seg md TPasteStart = [HPasteStart] /\ forward u seg md TPasteEnd = [HPasteEnd]) /\
+  (m_paste md = false -> term_update u md TPasteStart = [] /\ term_update u md TPasteEnd = []).
+Proof. exact paste_forward. Qed.
+Print Assumptions C13_paste_brackets.
+
+(* ---------- non-vacuity ---------- *)
+Example C13_ex_oracles : oracle_ok ascii_uni /\ (forall r, rune_seg [r] = [[r]]).
+Proof. exact (conj ascii_oracle_ok (fun r => eq_refl)). Qed.
+
+(* one chord of each class is expressible; Shift+Tab arrives as back-tab, Ctrl+Alt+a is outside the set *)
+Example C13_ex_expressible :
+  xterm_expressible ascii_uni (mkKey [97] 97 0 0 0 0) = true /\               (* a *)
+  xterm_expressible ascii_uni (mkKey [65] 97 65 0 (1 + 64) 0) = true /\        (* Shift+a, Caps Lock on *)
+  xterm_expressible ascii_uni (mkKey [] 120 0 0 2 0) = true /\                 (* Alt+x *)
+  xterm_expressible ascii_uni (mkKey [] 99 0 0 4 0) = true /\                  (* Ctrl+c *)
+  xterm_expressible ascii_uni (mkKey [] KeyF05 0 0 7 0) = true /\              (* Ctrl+Alt+Shift+F5 *)
+  xterm_expressible ascii_uni (mkKey [] KeyTab 0 0 1 0) = true /\              (* Shift+Tab *)
+  xterm_expressible ascii_uni (mkKey [] 97 0 0 6 0) = false /\                 (* Ctrl+Alt+a *)
+  forward ascii_uni rune_seg modes0 (TKey (mkKey [] KeyTab 0 0 1 0)) = [HKey (mkKey [] KeyTab 0 0 1 0)] /\
+  forward ascii_uni rune_seg (apply_ops [OpSet 1]) (TKey (mkKey [] KeyUp 0 0 0 0)) = [HKey (mkKey [] KeyUp 0 0 0 0)] /\
+  term_update ascii_uni (apply_ops [OpSet 1]) (TKey (mkKey [] KeyUp 0 0 0 0)) = [27; 79; 65].
+Proof. vm_compute. repeat split; reflexivity. Qed.
+
+(* the mouse hypotheses are satisfiable; a drag with only 1003 set arrives; with only 1006 nothing is written *)
+Example C13_ex_mouse :
+  let md := apply_ops [OpSet 1003; OpSet 1006] in
+  let m := mkMouse MouseLeftButton 4 3 EventMotion ModCtrl in
+  m_sgr md = true /\ mouse_enabled md m = true /\ button_ok (ms_button m) = true /\
+  in_i63 (ms_col m) = true /\ in_i63 (ms_row m) = true /\
+  forward ascii_uni rune_seg md (TMouse m) = [HMouse (mkMouse MouseLeftButton 4 3 EventMotion 0)] /\
+  term_update ascii_uni (apply_ops [OpSet 1006]) (TMouse (mkMouse MouseLeftButton 4 3 EventPress 0)) = [] /\
+  mouse_enabled (apply_ops [OpSet 1000]) m = false /\
+  altscroll_applies (apply_ops [OpSet 1049]) (mkMouse MouseWheelUp 0 0 EventPress 0) = true.
+Proof. vm_compute. repeat split; reflexivity. Qed.
